@@ -306,30 +306,30 @@ def lexError (l : L) : Option St × L := (none, emitError l)
 
 /-- what `rootState` does with the rune it just read -/
 inductive RootAct where
-  | eof | single (ty : Nat) | minus | parenOpen | parenClose | eq | amp | bar | gt | ident
+  | eof | single (ty : Nat) (nonError : ty ≠ T.error) | minus | parenOpen | parenClose | eq | amp | bar | gt | ident
   | space (nl : Bool) | number | quote | backslash | slash | question | bang | lt | other
 
 def classify (r : Rune) : RootAct :=
   if r = EOF then .eof
-  else if r = 43 then .single T.plus
+  else if r = 43 then .single T.plus (by decide)
   else if r = 45 then .minus
-  else if r = 42 then .single T.star
-  else if r = 37 then .single T.percent
+  else if r = 42 then .single T.star (by decide)
+  else if r = 37 then .single T.percent (by decide)
   else if r = 40 then .parenOpen
   else if r = 41 then .parenClose
-  else if r = 123 then .single T.braceOpen
-  else if r = 125 then .single T.braceClose
-  else if r = 91 then .single T.bracketOpen
-  else if r = 93 then .single T.bracketClose
-  else if r = 44 then .single T.comma
-  else if r = 59 then .single T.semicolon
-  else if r = 58 then .single T.colon
-  else if r = 46 then .single T.dot
+  else if r = 123 then .single T.braceOpen (by decide)
+  else if r = 125 then .single T.braceClose (by decide)
+  else if r = 91 then .single T.bracketOpen (by decide)
+  else if r = 93 then .single T.bracketClose (by decide)
+  else if r = 44 then .single T.comma (by decide)
+  else if r = 59 then .single T.semicolon (by decide)
+  else if r = 58 then .single T.colon (by decide)
+  else if r = 46 then .single T.dot (by decide)
   else if r = 61 then .eq
-  else if r = 64 then .single T.atSign
-  else if r = 35 then .single T.pragma
+  else if r = 64 then .single T.atSign (by decide)
+  else if r = 35 then .single T.pragma (by decide)
   else if r = 38 then .amp
-  else if r = 94 then .single T.caret
+  else if r = 94 then .single T.caret (by decide)
   else if r = 124 then .bar
   else if r = 62 then .gt
   else if r = 95 then .ident
@@ -351,7 +351,7 @@ def rootStep (l : L) : Option St × L :=
   let l := p.1
   match classify p.2 with
   | .eof => (none, l)
-  | .single ty => (some .root, emitType ty l)
+  | .single ty _ => (some .root, emitType ty l)
   | .minus =>
     let q := next l
     if q.2 = 62 then (some .root, emitType T.rightArrow q.1)
